@@ -7,4 +7,6 @@ mod strategy;
 pub use diagonal::DiagAdaptExpSettings;
 pub use diagonal::Strategy as DiagAdaptStrategy;
 pub use low_rank::LowRankMassMatrixStrategy;
+#[cfg(nuts_rs_verif)]
+pub use low_rank::verif_estimate as verif_lowrank_estimate;
 pub use strategy::MassMatrixAdaptStrategy;
